@@ -1,4 +1,5 @@
 import HpxVerif.Lemmas.CoverLemmas
+import HpxVerif.Lemmas.ConeReal
 
 /-!
 # C05 — cone coverage never misses a cell that the cone touches
@@ -10,6 +11,10 @@ What a proof can carry, and does (for **every classifier**, i.e. whatever the fl
   lying in a root cell lies in a cell of the output — the no-miss property of the recursion, relative to the
   classifier's soundness;
 * `allsky_exact`: a radius `≥ π` yields the 12 base cells, unconditionally, for every numeric instance.
+* over ℝ (`shs_is_haversine`, `skip_sound`, `cone_scheme_no_miss_real`): the compared quantity is the haversine of the
+  angular distance, a skipped cell has no point within `r` of the cone centre provided its points are within the level's
+  `D` of its centre, hence **the scheme misses nothing under the envelope hypothesis H1** (Mathlib's triangle inequality
+  for angles).
 What it cannot (see DESIGN.md, C16): that the empirical envelopes `D_δ` bound the true centre-to-point distance of every
 visited cell, and that the root cells cover the cone.  These are *searched* by the witness oracle on every run
 (2 000 / 12 000 cones; radii log-uniform 1e-9..π, within ±5 % of every table entry, > π/2; centres on seams and poles;
@@ -40,5 +45,33 @@ theorem cover_rec_no_miss {P : Type} (inCell : Nat → Nat → P → Prop) (R : 
 theorem allsky_exact {α : Type} [Num α] (cfg : Cfg) (depth : Nat) (lon lat r : α) (hr : Num.ge r (Num.pi : α) = true) :
     coneInternal cfg depth lon lat r = some ((List.range 12).map fun h => { depth := 0, hash := h, full := true }) := by
   unfold coneInternal; simp [hr]
+
+/-- **over ℝ, the haversine**: the quantity the classifier compares is `sin²(d/2)` of the angular distance `d` between the
+    cone centre and the cell centre (Mathlib's `InnerProductGeometry.angle` of the two unit vectors) -/
+theorem shs_is_haversine (coneLon coneLat : ℝ) (p : ℝ × ℝ) :
+    shs (α := ℝ) coneLon coneLat (Num.cos coneLat) p = Real.sin (adist (coneLon, coneLat) p / 2) ^ 2 :=
+  shs_real coneLon coneLat p
+
+/-- **over ℝ, skip is sound**: a cell is skipped only if no point within `D` of its centre is within `r` of the cone
+    centre (`sin²(x/2)` monotone on `[0, π]`, cap at `π`, triangle inequality on the sphere) -/
+theorem skip_sound (coneLon coneLat r D : ℝ) (c : ℝ × ℝ) (hr : 0 ≤ r) (hD : 0 ≤ D)
+    (hskip : Num.le (shs (α := ℝ) coneLon coneLat (Num.cos coneLat) c) (toShsMinMax r D).max = false)
+    (q : ℝ × ℝ) (hq : adist c q ≤ D) : r < adist (coneLon, coneLat) q :=
+  cone_skip_sound coneLon coneLat r D c hr hD hskip q hq
+
+/-- **over ℝ, the cone scheme misses nothing, given the envelope hypothesis `H1`** (every point of a visited cell is within
+    the `D` of its recursion level of the cell centre — the geometric fact that C16 searches): every point of the cone lying
+    in the start cell lies in a cell of the output of the model's descent with the model's classifier. -/
+theorem cone_scheme_no_miss_real (cfg : Cfg) (lon lat r : ℝ) (hr : 0 ≤ r) (dists : List ℝ) (hD : ∀ D ∈ dists, 0 ≤ D)
+    (inCell : Nat → Nat → ℝ × ℝ → Prop) (target ds : Nat)
+    (hcover : ∀ d h q, d ≠ target → inCell d h q → inCell (d + 1) (h <<< 2) q ∨ inCell (d + 1) (h <<< 2 ||| 1) q ∨
+      inCell (d + 1) (h <<< 2 ||| 2) q ∨ inCell (d + 1) (h <<< 2 ||| 3) q)
+    (H1 : ∀ d h c D q, ds ≤ d → Hash.center (α := ℝ) cfg d h = some c → dists[d - ds]? = some D → inCell d h q →
+      adist c q ≤ D)
+    (fuel root : Nat) (out : List Cell)
+    (h : coverRec target (coneClassifier (α := ℝ) cfg lon lat (Num.cos lat) (dists.map (toShsMinMax r))) fuel ds root 0 = some out)
+    (q : ℝ × ℝ) (hq : inCell ds root q) (hin : adist (lon, lat) q ≤ r) :
+    ∃ c ∈ out, inCell c.depth c.hash q :=
+  cone_scheme_no_miss cfg lon lat r hr dists hD inCell target ds hcover H1 fuel root out h q hq hin
 
 end Hpx.C05
